@@ -168,6 +168,8 @@ def run_blocks(ctx, rng, proxy, peer, history, config, ctor, dicts, pattern, cas
 
 
 def run(ctx):
+    import socket
+    socket.setdefaulttimeout(30)   # a hung exchange must surface as an exception, not as a dead shard
     import jsonrpclib
     import jsonrpclib.config
     from jsonrpclib.history import History
